@@ -57,16 +57,14 @@ theorem tensordotViaFused_vm [Zero R] [Add R] [Mul R] (a b : Arr R) (xa xb r : L
   · simp only [h2, Bool.false_eq_true, if_false]
 
 /-- right operand contracted completely -/
-theorem abOk_mv [AddCommMonoid R] [Mul R] [Neg R]
+theorem abOk_mv_ctx [AddCommMonoid R] [Mul R] [Neg R]
     (hz1 : ∀ x : R, 0 * x = 0) (hz2 : ∀ x : R, x * 0 = 0) (a b : Arr R) (xa xb : List Nat)
-    (ha : a.validB = true) (hb : b.validB = true) (hfa : a.fermi = false) (hfb : b.fermi = false)
-    (hsym : a.sym = b.sym) (hc : ValidP.contractibleB a b xa xb = true)
-    (hnA : xa.Nodup) (hnB : xb.Nodup) (hA : ∀ x ∈ xa, x < a.ndim) (hB : ∀ x ∈ xb, x < b.ndim)
+    (ha : a.validB = true) (hfa : a.fermi = false)
+    (h : Ctx0 (dropMisaligned a b xa xb).1 (dropMisaligned a b xa xb).2 xa xb)
     (hneK : xa ≠ []) (hneL : freeAxes a.ndim xa ≠ []) (hR : freeAxes b.ndim xb = [])
     (hbl : ((dropMisaligned a b xa xb).1.blocks.isEmpty || (dropMisaligned a b xa xb).2.blocks.isEmpty) = false) :
     AbOk a b xa xb := by
   obtain ⟨n1, n2⟩ := dropMisaligned_ndim a b xa xb
-  have h := ctx0_of_dropMisaligned a b xa xb ha hb hfa hfb hsym hc hnA hnB hA hB
   have hneKb : xb ≠ [] := by
     intro e; have := h.len; rw [e] at this; exact hneK (List.eq_nil_of_length_eq_zero this)
   have hL' : freeAxes (dropMisaligned a b xa xb).1.ndim xa ≠ [] := by rw [n1]; exact hneL
@@ -84,17 +82,28 @@ theorem abOk_mv [AddCommMonoid R] [Mul R] [Neg R]
   exact abOk_of_aligned a b xa xb ha hfa c (by rw [hR]; exact hflow.trans hc_ok) hcv f1 f2 f3 f4 f5
     hrank hval hsec hshape
 
-/-- left operand contracted completely -/
-theorem abOk_vm [AddCommMonoid R] [Mul R] [Neg R]
+/-- right operand contracted completely -/
+theorem abOk_mv [AddCommMonoid R] [Mul R] [Neg R]
     (hz1 : ∀ x : R, 0 * x = 0) (hz2 : ∀ x : R, x * 0 = 0) (a b : Arr R) (xa xb : List Nat)
     (ha : a.validB = true) (hb : b.validB = true) (hfa : a.fermi = false) (hfb : b.fermi = false)
     (hsym : a.sym = b.sym) (hc : ValidP.contractibleB a b xa xb = true)
     (hnA : xa.Nodup) (hnB : xb.Nodup) (hA : ∀ x ∈ xa, x < a.ndim) (hB : ∀ x ∈ xb, x < b.ndim)
+    (hneK : xa ≠ []) (hneL : freeAxes a.ndim xa ≠ []) (hR : freeAxes b.ndim xb = [])
+    (hbl : ((dropMisaligned a b xa xb).1.blocks.isEmpty || (dropMisaligned a b xa xb).2.blocks.isEmpty) = false) :
+    AbOk a b xa xb :=
+  abOk_mv_ctx hz1 hz2 a b xa xb ha hfa
+    (ctx0_of_dropMisaligned a b xa xb ha hb hfa hfb hsym hc hnA hnB hA hB) hneK hneL hR hbl
+
+
+/-- left operand contracted completely -/
+theorem abOk_vm_ctx [AddCommMonoid R] [Mul R] [Neg R]
+    (hz1 : ∀ x : R, 0 * x = 0) (hz2 : ∀ x : R, x * 0 = 0) (a b : Arr R) (xa xb : List Nat)
+    (ha : a.validB = true) (hfa : a.fermi = false)
+    (h : Ctx0 (dropMisaligned a b xa xb).1 (dropMisaligned a b xa xb).2 xa xb)
     (hneK : xa ≠ []) (hL : freeAxes a.ndim xa = []) (hneR : freeAxes b.ndim xb ≠ [])
     (hbl : ((dropMisaligned a b xa xb).1.blocks.isEmpty || (dropMisaligned a b xa xb).2.blocks.isEmpty) = false) :
     AbOk a b xa xb := by
   obtain ⟨n1, n2⟩ := dropMisaligned_ndim a b xa xb
-  have h := ctx0_of_dropMisaligned a b xa xb ha hb hfa hfb hsym hc hnA hnB hA hB
   have hneKb : xb ≠ [] := by
     intro e; have := h.len; rw [e] at this; exact hneK (List.eq_nil_of_length_eq_zero this)
   have hL' : freeAxes (dropMisaligned a b xa xb).1.ndim xa = [] := by rw [n1]; exact hL
@@ -111,6 +120,35 @@ theorem abOk_vm [AddCommMonoid R] [Mul R] [Neg R]
   have hflow := tensordotViaFused_vm a b xa xb (freeAxes b.ndim xb) hneK hneKb hneR hbl _ _ hfA hfB
   exact abOk_of_aligned a b xa xb ha hfa c (by rw [hL]; exact hflow.trans hc_ok) hcv f1 f2 f3 f4 f5
     hrank hval hsec hshape
+
+/-- left operand contracted completely -/
+theorem abOk_vm [AddCommMonoid R] [Mul R] [Neg R]
+    (hz1 : ∀ x : R, 0 * x = 0) (hz2 : ∀ x : R, x * 0 = 0) (a b : Arr R) (xa xb : List Nat)
+    (ha : a.validB = true) (hb : b.validB = true) (hfa : a.fermi = false) (hfb : b.fermi = false)
+    (hsym : a.sym = b.sym) (hc : ValidP.contractibleB a b xa xb = true)
+    (hnA : xa.Nodup) (hnB : xb.Nodup) (hA : ∀ x ∈ xa, x < a.ndim) (hB : ∀ x ∈ xb, x < b.ndim)
+    (hneK : xa ≠ []) (hL : freeAxes a.ndim xa = []) (hneR : freeAxes b.ndim xb ≠ [])
+    (hbl : ((dropMisaligned a b xa xb).1.blocks.isEmpty || (dropMisaligned a b xa xb).2.blocks.isEmpty) = false) :
+    AbOk a b xa xb :=
+  abOk_vm_ctx hz1 hz2 a b xa xb ha hfa
+    (ctx0_of_dropMisaligned a b xa xb ha hb hfa hfb hsym hc hnA hnB hA hB) hneK hL hneR hbl
+
+
+/-- **fused = blockwise for every non-empty contraction** (abelian operands, aligned blocks) -/
+theorem abOk_contract_ctx [AddCommMonoid R] [Mul R] [Neg R]
+    (hz1 : ∀ x : R, 0 * x = 0) (hz2 : ∀ x : R, x * 0 = 0) (a b : Arr R) (xa xb : List Nat)
+    (ha : a.validB = true) (hfa : a.fermi = false)
+    (h : Ctx0 (dropMisaligned a b xa xb).1 (dropMisaligned a b xa xb).2 xa xb)
+    (hneK : xa ≠ [])
+    (hbl : ((dropMisaligned a b xa xb).1.blocks.isEmpty || (dropMisaligned a b xa xb).2.blocks.isEmpty) = false) :
+    AbOk a b xa xb := by
+  by_cases hL : freeAxes a.ndim xa = []
+  · by_cases hR : freeAxes b.ndim xb = []
+    · exact abOk_scalar_ctx hz1 hz2 a b xa xb ha hfa h hneK hL hR hbl
+    · exact abOk_vm_ctx hz1 hz2 a b xa xb ha hfa h hneK hL hR hbl
+  · by_cases hR : freeAxes b.ndim xb = []
+    · exact abOk_mv_ctx hz1 hz2 a b xa xb ha hfa h hneK hL hR hbl
+    · exact abOk_general_ctx hz1 hz2 a b xa xb ha hfa h hneK hL hR hbl
 
 /-- **fused = blockwise for every non-empty contraction** (abelian operands, aligned blocks) -/
 theorem abOk_contract [AddCommMonoid R] [Mul R] [Neg R]
